@@ -12,6 +12,7 @@ CONSTANTS
   Aborts = FALSE
   SendLast = TRUE
   Record = FALSE
+  OnlyBad = FALSE
 INIT Init
 NEXT Next
 INVARIANT Causal
